@@ -210,23 +210,21 @@ func runStormHistory(seed int64, h int, pool map[string][]*poolKey, ca *caSet, d
 			handled <- struct{}{}
 		}
 	}()
-	// two more clients fetching pairs all the time
+	// one more client fetching pairs all the time
 	var stop atomic.Bool
-	for c := 1; c <= 2; c++ {
+	for c := 1; c <= 1; c++ {
 		wg.Add(1)
 		go func(c int) {
 			defer wg.Done()
 			pr := mrand.New(mrand.NewPCG(uint64(seed), uint64(h)*1000+uint64(c)))
-			for i := 0; i < 400 && !stop.Load(); i++ {
+			for i := 0; i < 150 && !stop.Load(); i++ {
 				pair(c, pr, "between two reloads")
-				if pr.IntN(2) == 0 {
-					time.Sleep(time.Duration(pr.IntN(300)) * time.Microsecond)
-				}
+				time.Sleep(time.Duration(pr.Int64N(int64(reloadTime) + 1)))
 			}
 		}(c)
 	}
 
-	nBursts := 6 + rng.IntN(4)
+	nBursts := 4 + rng.IntN(3)
 	for b := 0; b < nBursts && len(good) >= 2; b++ {
 		i := rng.IntN(len(good))
 		j := rng.IntN(len(good) - 1)
